@@ -456,6 +456,73 @@ func main() {
 		c.NonTrivial()
 	})
 
+	// size: vertex lists far longer than the universes above (a copy, comparison or scan that works in blocks above some
+	// length must still reach every vertex)
+	longNs := []int{33, 64, 65, 128, 129, 257, 1025}
+	r.Explore("long-values", fmt.Sprintf("vertex lists of %v points on a spiral x 6 kinds / containers x the edited position {first, around the middle, last}: the clone is equal and independent at that position, Equal sees the one edited vertex from both sides, the bound is the tight box, Reverse is the reversed list and an involution", longNs), mc.Opts{MaxDev: -1}, func(c *mc.Ctx) {
+		n := longNs[c.Choose(len(longNs))]
+		base := make([]orb.Point, n)
+		for i := range base {
+			a := float64(i) * 0.37
+			base[i] = orb.Point{math.Round(float64(i)*math.Cos(a)*8) / 8, math.Round(float64(i)*math.Sin(a)*8) / 8}
+		}
+		pos := []int{0, 1, n/2 - 1, n / 2, n/2 + 1, n - 2, n - 1}[c.Choose(7)]
+		forms := []func(ps []orb.Point) orb.Geometry{
+			func(ps []orb.Point) orb.Geometry { return orb.MultiPoint(ps) },
+			func(ps []orb.Point) orb.Geometry { return orb.LineString(ps) },
+			func(ps []orb.Point) orb.Geometry { return orb.Ring(ps) },
+			func(ps []orb.Point) orb.Geometry { return orb.Polygon{orb.Ring(ps), {{0, 0}, {1, 0}, {1, 1}, {0, 0}}} },
+			func(ps []orb.Point) orb.Geometry { return orb.MultiLineString{{{5, 5}}, orb.LineString(ps)} },
+			func(ps []orb.Point) orb.Geometry { return orb.Collection{orb.MultiPolygon{{orb.Ring(ps)}}, orb.Point{1, 1}} },
+		}
+		for fi, f := range forms {
+			mk := func() orb.Geometry { return f(append([]orb.Point(nil), base...)) }
+			g := mk()
+			cl := orb.Clone(g)
+			if !orb.Equal(cl, g) || !orb.Equal(g, cl) || !refgeom.Equal(cl, g) {
+				c.Failf("clone-equal", "form %d, %d vertices: the clone differs from the original", fi, n)
+				continue
+			}
+			// edit vertex pos of the clone: the original keeps its value, and equality sees the difference
+			k := 0
+			refgeom.Vertices(cl, true, func(p *orb.Point) {
+				if k == pos+map[int]int{4: 1}[fi] { // the multi-line-string holds one vertex in front of the list
+					p[1] += 0.5
+				}
+				k++
+			})
+			if !refgeom.Equal(g, mk()) {
+				c.Failf("clone-shares-memory", "form %d, %d vertices: editing vertex %d of the clone changed the original", fi, n, pos)
+			}
+			if orb.Equal(cl, g) || orb.Equal(g, cl) {
+				c.Failf("equal", "form %d, %d vertices: Equal does not see the edit of vertex %d (%v / %v)", fi, n, pos, orb.Equal(cl, g), orb.Equal(g, cl))
+			}
+			var all orb.MultiPoint
+			refgeom.Vertices(g, true, func(p *orb.Point) { all = append(all, *p) })
+			if fi == 3 {
+				all = all[:n] // outer ring only
+			}
+			if tb, ok := refgeom.TightBound(all); !ok || g.Bound() != tb {
+				c.Failf("bound-tight", "form %d, %d vertices: Bound() = %v, the tight box is %v", fi, n, g.Bound(), tb)
+			}
+		}
+		ls := orb.LineString(append([]orb.Point(nil), base...))
+		ls.Reverse()
+		for i := range ls {
+			if ls[i] != base[n-1-i] {
+				c.Failf("reverse", "LineString.Reverse of %d vertices: position %d holds %v, want %v", n, i, ls[i], base[n-1-i])
+				break
+			}
+		}
+		rg := orb.Ring(append([]orb.Point(nil), base...))
+		rg.Reverse()
+		rg.Reverse()
+		if !refgeom.Equal(rg, orb.Ring(base)) {
+			c.Failf("reverse", "Ring.Reverse twice of %d vertices is not the identity", n)
+		}
+		c.NonTrivial()
+	})
+
 	// nil against empty: a nil slice, an empty one and an empty one with spare capacity have the same (zero) length,
 	// so they are equal - in both directions, directly through the typed method and through every container
 	type emptyKind struct {
